@@ -313,7 +313,7 @@ func C07(c *Ctx) {
 // c07Flags: shape of the error-capability flags.
 func (c *Ctx) c07Flags() {
 	r := c.R
-	r.Rule("C07-5", "error flags: MethodEntry.RetError ⇔ 0 < len(Results()) ∧ IsErrorType(last); Results() keeps every result in return style and only error-typed ones otherwise; StructMethodNode.ReturnsError ⇔ Results().Len()==2; ConverterNode.ReturnsError = converter.RetError(); lookupConverterFunc's flag ⇔ 2 results ∧ second is error; wrapper nodes report false and are only built around nodes with ReturnsError()==false")
+	r.Rule("C07-5", "error flags: MethodEntry.RetError ⇔ 0 < len(Results()) ∧ IsErrorType(last); Results() keeps every result in return style and only error-typed ones otherwise; StructMethodNode.ReturnsError ⇔ Results().Len()==2; ConverterNode.ReturnsError = converter.RetError(); lookupConverterFunc's flag ⇔ 2 results ∧ second is error, and it accepts only functions that can be called as f(x) – one parameter, not variadic; wrapper nodes report false and are only built around nodes with ReturnsError()==false")
 	if fn := c.MustMethod("C07-5", "/pkg/builder/model", "MethodEntry", "RetError"); fn != nil {
 		rc := c.Reach(fn)
 		tr, fl := rc.RetCond(0, true), rc.RetCond(0, false)
@@ -482,6 +482,8 @@ func (c *Ctx) c07Flags() {
 			r.Check("C07-5", key+":second-must-be-error", c.InstrPos(ret), d.Implies(c.notExactly(isLenRes, 2), c.M(true, secondErr)), "a two-result function whose second result is not an error is accepted as converter; reach: "+d.Describe(c.O))
 			r.Check("C07-5", key+":at-most-two", c.InstrPos(ret), d.Implies(c.atMost(isLenRes, 2)), "a function with more than two results is accepted as converter; reach: "+d.Describe(c.O))
 			r.Check("C07-5", key+":at-least-one", c.InstrPos(ret), d.Implies(c.atLeast(isLenRes, 1)), "a function without results is accepted as converter; reach: "+d.Describe(c.O))
+			r.Check("C07-5", key+":not-variadic", c.InstrPos(ret), d.Implies(c.M(false, func(x *core.Term) bool { return x.IsCallTo("(*go/types.Signature).Variadic") })),
+				"a variadic function is accepted as converter although the call is emitted as f(x), without `...`: `Sum(src.Nums)` for `func Sum(...int) int` does not compile; reach: "+d.Describe(c.O))
 		}
 		r.Check("C07-5", key+":success-return", c.Pos(fn.Pos()), n >= 1, "success return of lookupConverterFunc not recognised")
 	}
